@@ -228,6 +228,16 @@ func (c14Checker) Run(tp *Tapes, opt RunOpt) *Outcome {
 		}
 	}
 
+	// the destinations real callers hand in most often: standard-library types an engine can
+	// recognise by type assertion (never failing; fault-free runs only)
+	for wk := 4; wk <= 6 && len(out.Violations) == 0; wk++ {
+		wkind = wk
+		r1, _ := run(EpExecuteWriter, cd, nil)
+		r2, _ := run(EpExecuteWriterUnbuffered, cd, nil)
+		wkind = 0
+		out.probe("std_writer_kinds")
+		agree([]*ExecResult{base[0], r1, r2}, "fault-free, writer is a "+[]string{"*bytes.Buffer", "*strings.Builder", "*bufio.Writer"}[wk-4])
+	}
 	if agree(base[:], "fault-free") {
 		if base[0].Failed() {
 			out.probe("genuine_exec_error")
@@ -546,8 +556,8 @@ func (c14Checker) Run(tp *Tapes, opt RunOpt) *Outcome {
 				out.Execs++
 				return r
 			}
-			for round := 0; round < 2 && len(out.Violations) == 0; round++ {
-				lastCase = &c14Case{Entry: fmt.Sprintf("same template, nil Context, round %d (set.Globals[\"glob\"] reassigned between the rounds)", round)}
+			for round := 0; round < 3 && len(out.Violations) == 0; round++ {
+				lastCase = &c14Case{Entry: fmt.Sprintf("same template, nil Context, round %d (set.Globals[\"glob\"] reassigned between the rounds; round 2 with a global whose name is not an identifier)", round)}
 				var rs []*ExecResult
 				for _, ep := range eps {
 					rs = append(rs, onNil(ep))
@@ -555,6 +565,9 @@ func (c14Checker) Run(tp *Tapes, opt RunOpt) *Outcome {
 				out.probe("nil_context_rounds")
 				agree(rs, "nil context, globals changed between rounds")
 				set.Globals["glob"] = "G-changed<&>"
+				if round == 1 {
+					set.Globals["build-id"] = "b1" // whatever the engine makes of it, all four must make the same
+				}
 			}
 		}
 		SetCurWorld(old)
